@@ -62,7 +62,12 @@ PLACE = {  # root interval, child interval (minutes); window is [1, 4]
     "lo": ((0.5, 2.0), (0.6, 0.9)),     # only the root's end is inside
     "hi": ((3.0, 4.5), (4.1, 4.4)),     # only the root's start is inside
     "out": ((0.2, 0.8), (0.3, 0.7)),
+    # exactly on the (inclusive) window edges
+    "elo": ((0.2, 1.0), (0.3, 0.7)),
+    "ehi": ((4.0, 4.6), (4.1, 4.4)),
 }
+# the same placements at epoch magnitude (not a multiple of 256 ns)
+EPOCH_BASE = 1_715_688_000_123_456_789
 SHAPES2 = [('a',), ('b',), ('a', ('a',)), ('a', ('b',)), ('b', ('a',)),
            ('b', ('b',))]
 
@@ -72,7 +77,17 @@ def window_items():
             for pl in sorted(PLACE)]
 
 
-def window_spans(store):
+def window_spans(store, base=0):
+    traces, anchors = _window_spans(store)
+    if base:
+        for t in traces + anchors:
+            for sp in t:
+                sp["start_timestamp"] += base
+                sp["end_timestamp"] += base
+    return traces, anchors
+
+
+def _window_spans(store):
     """traces placed relative to a [1, 4] minute window fixed by two anchor
     traces at minute 0 and minute 5 (time_buffer = 1)"""
     traces = []
@@ -103,12 +118,15 @@ def window_spans(store):
 def run_window_store(store):
     bad = []
     n = 0
-    traces, anchors = window_spans(store)
     exp = {}
     for nm, sh, pl in store:
         if pl != "out":
             exp.setdefault(nm, set()).add(om.shape_canon(sh))
-    for bs in (1, 2, 1000):
+    for bs in (1, 2, 1000, -1000):
+        # -1000: default batch size with all times at epoch magnitude
+        epoch = bs < 0
+        traces, anchors = window_spans(store, EPOCH_BASE if epoch else 0)
+        bs = abs(bs)
         for on in ("seq", "rev"):
             allt = anchors[:1] + traces + anchors[1:]
             order = om.ingestion_orders(allt)[on]
@@ -122,6 +140,7 @@ def run_window_store(store):
                 sel = h.find_unique_graphs()
             except Exception as e:
                 bad.append({"bs": bs, "order": on, "window": True,
+                            "epoch": epoch,
                             "problem": ["exception", type(e).__name__,
                                         str(e)[:160]]})
                 continue
@@ -143,7 +162,7 @@ def run_window_store(store):
                         {k: len(v) for k, v in exp.items()}]
             if prob:
                 bad.append({"bs": bs, "order": on, "window": True,
-                            "problem": prob})
+                            "epoch": epoch, "problem": prob})
     return n, bad
 
 
@@ -274,12 +293,14 @@ def collect(tier, tasks, results, ctx):
                 continue
             viol.append({
                 "key": input_key(["C09", b["store"], b["bs"], b["order"],
-                                  bool(b.get("window"))]),
+                                  bool(b.get("window"))] +
+                                 (["epoch"] if b.get("epoch") else [])),
                 "what": f"store={b['store']} batch={b['bs']} "
                         f"order={b['order']}: {b['problem']}",
                 "input": {"store": b["store"], "bs": b["bs"],
                           "order": b["order"],
-                          "window": bool(b.get("window"))},
+                          "window": bool(b.get("window")),
+                          "epoch": bool(b.get("epoch"))},
                 "observed": b})
     he = None
     if nontrivial < 2:
@@ -325,7 +346,8 @@ def replay(rec, ctx):
         store = [(nm, _tt(sh), pl) for nm, sh, pl in i["store"]]
         n, bad = run_window_store(store)
         bad = [b for b in bad
-               if b["bs"] == i["bs"] and b["order"] == i["order"]]
+               if b["bs"] == i["bs"] and b["order"] == i["order"]
+               and bool(b.get("epoch")) == bool(i.get("epoch"))]
         return bool(bad), repr([b["problem"] for b in bad])[:300]
     store = [(nm, _tt(sh)) for nm, sh in i["store"]]
     n, bad, _, _ = run_store(store)
